@@ -34,7 +34,7 @@ CloseVerdict(r) ==
         ELSE OK
     ELSE IF ~r.parked THEN V("drift", "the scenario could not park a thread at its point")
     ELSE IF r.drop_returned_ms < 0 THEN V("C17", "dropping the store did not return")
-    ELSE IF \E m \in Methods : r.after[m] # "closed"
+    ELSE IF \E m \in DOMAIN r.after : r.after[m] # "closed"
            THEN V("C17", "an operation through a remaining handle does not fail with 'closed' after the drop (" \o r.kind \o ")")
     ELSE IF r.mutating_calls_after_drop > 0 \/ ~r.dir_unchanged
            THEN V("C17", "operations after the drop still change the directory")
@@ -88,8 +88,9 @@ BgVerdict(r) ==
         ELSE IF ~(\E k \in 2..Len(r.merge_starts) : r.merge_starts[k] <= r.merge_starts[1] + r.interval_ms + r.jitter_ms + SlackMs)
                THEN V("C18", "after a background merge failed no further merge is attempted although the trigger is still exceeded")
         ELSE OK
-    ELSE IF i.pattern \in {"frag", "dead"} THEN
+    ELSE IF i.pattern \in {"frag", "dead", "late-del"} THEN
         IF ~r.can_merge THEN V("drift", "the write pattern did not cross the trigger")
+        ELSE IF i.pattern = "late-del" /\ r.merges_before_crossing > 0 THEN V("C18", "a merge ran although no merge trigger was exceeded yet (pattern late-del)")
         ELSE IF ~(\E k \in 1..Len(r.merge_starts) : r.merge_starts[k] <= r.crossed_at + r.interval_ms + r.jitter_ms + SlackMs)
                THEN V("C18", "a trigger (" \o i.pattern \o ") is exceeded but no merge started within one check interval plus jitter")
         ELSE OK
